@@ -14,7 +14,11 @@ nothing is evaluated:
                         with straight-line control flow at its top level and at most one trailing return -> the helper's
                         statements with parameters renamed to the arguments and locals made unique
 
-  const_getattr         `getattr(x, "name")` -> `x.name`
+  inline_guard_calls    `if not self._stage(a): return` with a helper whose every path ends in `return <constant>` -> the helper's decision
+                        tree with the caller's arms in place of its returns (early returns moved into tail position first)
+
+  const_getattr         `getattr(x, "name")` -> `x.name`;  statement `setattr(x, "name", v)` -> `x.name = v`;
+                        statement `X.update({"a": u, ..})` -> `X["a"] = u; ..`
 
 A transformation that cannot be applied safely (re-assigned names, break/continue, *args, generators, early returns) leaves the
 code as it is; the rules then see the original spelling."""
@@ -547,6 +551,158 @@ def inline_stmt_calls(func, resolve, max_depth: int = 3):
     return func
 
 
+# ------------------------------------------------------------------------------------- guard helpers (stages that report success)
+
+def _has_return(node) -> bool:
+    """a `return` that belongs to the function `node` is a statement of (not to a def / lambda nested in it)"""
+    todo = [node]
+    while todo:
+        n = todo.pop()
+        if isinstance(n, ast.Return):
+            return True
+        for ch in ast.iter_child_nodes(n):
+            if not isinstance(ch, (ast.FunctionDef, ast.AsyncFunctionDef, ast.Lambda, ast.ClassDef)):
+                todo.append(ch)
+    return False
+
+
+def _tailify(stmts, budget=None):
+    """The statement list with every `return` moved into tail position: the statements that follow an `if` with a returning arm are
+    pushed into its arms that fall through (`if c: ..; return X` + REST  ->  `if c: ..; return X  else: REST`).  None when a return
+    sits inside a loop / with / try (not a decision tree) or the result would grow unreasonably."""
+    budget = budget if budget is not None else [400]
+    out = []
+    for i, st in enumerate(stmts):
+        if isinstance(st, ast.Return):
+            return out + [st]                      # what follows is dead
+        if isinstance(st, ast.If) and _has_return(st):
+            rest = stmts[i + 1:]
+            arms = []
+            for arm in (st.body, st.orelse):
+                falls = not (arm and isinstance(arm[-1], (ast.Return, ast.Raise)))
+                ext = list(arm) + ([copy.deepcopy(r) for r in rest] if falls else [])
+                budget[0] -= sum(1 for r in rest for _ in ast.walk(r)) if falls else 0
+                if budget[0] < 0:
+                    return None
+                t = _tailify(ext, budget)
+                if t is None:
+                    return None
+                arms.append(t)
+            new = ast.If(test=st.test, body=arms[0] or [ast.Pass()], orelse=arms[1])
+            return out + [ast.copy_location(new, st)]
+        if _has_return(st):
+            return None
+        out.append(st)
+    return out
+
+
+def _guard_helper(callee) -> bool:
+    """a helper that reports how it went: every return gives a literal constant (True / False / None ..), no generators / *args"""
+    if not isinstance(callee, ast.FunctionDef):
+        return False
+    a = callee.args
+    if a.vararg or a.kwarg or a.posonlyargs:
+        return False
+    rets = []
+    todo = list(callee.body)
+    while todo:
+        n = todo.pop()
+        if isinstance(n, (ast.Yield, ast.YieldFrom, ast.Global, ast.Nonlocal, ast.Await)):
+            return False
+        if isinstance(n, ast.Return):
+            rets.append(n)
+        for ch in ast.iter_child_nodes(n):
+            if not isinstance(ch, (ast.FunctionDef, ast.AsyncFunctionDef, ast.Lambda, ast.ClassDef)):
+                todo.append(ch)
+    return bool(rets) and all(r.value is None or isinstance(r.value, ast.Constant) for r in rets) \
+        and len({bool(r.value.value) if r.value is not None else False for r in rets}) == 2
+
+
+def inline_guard_calls(func, resolve, max_depth: int = 2):
+    """Stage helpers.  `if [not] self._stage(a): A [else: B]` where the helper ends every path with `return <constant>` is the helper's
+    decision tree with A put where it returns a value that makes the test true and B (or nothing: control falls through to the
+    statements after the `if`) where it makes it false:
+
+        if not self._write_file(path):          target = path / "f"                     (helper body, parameters bound)
+            return                        ->    if exists(target): warn(); return       (`return False` -> A)
+        <next stage>                            else: write(target)                     (`return True`  -> fall through)
+                                                <next stage>
+
+    Early returns of the helper are first moved into tail position (_tailify).  Helpers with a return inside a loop / with / try
+    stay calls."""
+    def expand(stmts, depth):
+        out = []
+        for st in stmts:
+            for fld in ("body", "orelse", "finalbody"):
+                b = getattr(st, fld, None)
+                if isinstance(b, list) and b and isinstance(b[0], ast.stmt) and not isinstance(st, (ast.FunctionDef, ast.ClassDef, ast.AsyncFunctionDef)):
+                    setattr(st, fld, expand(b, depth))
+            if isinstance(st, ast.Try):
+                for h in st.handlers:
+                    h.body = expand(h.body, depth)
+            if isinstance(st, ast.If) and depth < max_depth:
+                neg = isinstance(st.test, ast.UnaryOp) and isinstance(st.test.op, ast.Not)
+                call = st.test.operand if neg else st.test
+                r = resolve(call) if isinstance(call, ast.Call) else None
+                if r is not None and r[0] is not func and _guard_helper(r[0]):
+                    res = _renamed_body(r[0], call, r[1])
+                    tail = _tailify(res[1] + [ast.Return(value=ast.Constant(value=None))]) if res is not None else None
+                    if tail is not None:
+                        def put(ss):
+                            new = []
+                            for s_ in ss:
+                                if isinstance(s_, ast.Return):
+                                    truth = bool(s_.value.value) if s_.value is not None else False
+                                    new.extend(copy.deepcopy(x) for x in (st.body if truth != neg else st.orelse))
+                                elif isinstance(s_, ast.If):
+                                    s_.body = put(s_.body) or [ast.Pass()]
+                                    s_.orelse = put(s_.orelse)
+                                    new.append(s_)
+                                else:
+                                    new.append(s_)
+                            return new
+                        body = res[0] + put(tail)
+                        for b in body:
+                            ast.copy_location(b, st) if not hasattr(b, "lineno") else None
+                            ast.fix_missing_locations(b)
+                        out.extend(expand(body, depth + 1))
+                        continue
+            out.append(st)
+        return out
+    func.body = expand(func.body, 0)
+    return func
+
+
+def _renamed_body(callee, call, recv=None):
+    """(argument bindings, the callee's statements -- returns kept -- with parameters renamed to the arguments and locals made
+    unique), as inline_stmts does for helpers with one trailing return; None when the call cannot be bound"""
+    decs = {ast.unparse(d) for d in callee.decorator_list}
+    if decs - {"staticmethod", "classmethod"}:
+        return None
+    skip = recv is not None and "staticmethod" not in decs
+    given = _bind_args(callee, call, skip)
+    if given is None:
+        return None
+    k = next(_counter)
+    ren, pre = {}, []
+    if skip:
+        if not isinstance(recv, ast.Name):
+            return None
+        ren[callee.args.args[0].arg] = recv.id
+    body = copy.deepcopy(_callee_body(callee))
+    stored = {n.id for b in body for n in ast.walk(b) if isinstance(n, ast.Name) and isinstance(n.ctx, (ast.Store, ast.Del))}
+    for p, e in given.items():
+        if isinstance(e, ast.Name) and p not in stored:
+            ren[p] = e.id
+        else:
+            fresh = f"_inl{k}_{p}"
+            ren[p] = fresh
+            pre.append(ast.Assign(targets=[ast.Name(id=fresh, ctx=ast.Store())], value=copy.deepcopy(e)))
+    for l in {n.id for b in body for n in ast.walk(b) if isinstance(n, ast.Name) and isinstance(n.ctx, ast.Store)} - set(ren):
+        ren[l] = f"_inl{k}_{l}"
+    return pre, [_Rename(ren).visit(b) for b in body]
+
+
 class _ReplaceNode(ast.NodeTransformer):
     def __init__(self, old, new):
         self.old, self.new = old, new
@@ -791,6 +947,10 @@ def expand_helpers(func, resolve):
         return out
     func.body = prepare(func.body)
     inline_stmt_calls(func, resolve)
+    before = len(func.body), sum(1 for _ in ast.walk(func))
+    inline_guard_calls(func, resolve)
+    if (len(func.body), sum(1 for _ in ast.walk(func))) != before:
+        inline_stmt_calls(func, resolve)          # procedures called from the stages that were put back
     func.body = [_ExprInliner(resolve, func).visit(st) for st in func.body]
     ast.fix_missing_locations(func)
     return func
